@@ -147,7 +147,8 @@ pub fn run(ctx: &mut Ctx, _replay: Option<&[String]>) {
             let (h, fam) = gen_matrix(&mut rng, 24);
             let n = h.num_cols();
             // puncturing pattern whose length divides n
-            let divs: Vec<usize> = (2..=6).filter(|d| n % d == 0).collect();
+            // pattern lengths up to 14: with 7, 9, 11 ... blocks the quotient n / (len / kept) is not exact in floating point
+            let divs: Vec<usize> = (2..=14).filter(|d| n % d == 0).collect();
             let pattern: Option<Vec<bool>> = if !divs.is_empty() && rng.chance(1, 2) {
                 let d = *rng.pick(&divs);
                 let mut p: Vec<bool> = (0..d).map(|_| rng.chance(2, 3)).collect();
@@ -237,7 +238,7 @@ pub fn run(ctx: &mut Ctx, _replay: Option<&[String]>) {
         let Ok(enc) = Encoder::from_h(&h) else { continue };
         let n = h.num_cols();
         let k = n - h.num_rows();
-        let divs: Vec<usize> = (2..=6).filter(|d| n % d == 0).collect();
+        let divs: Vec<usize> = (2..=14).filter(|d| n % d == 0).collect();
         let pattern: Option<Vec<bool>> = if !divs.is_empty() && rng.chance(1, 2) {
             let d = *rng.pick(&divs);
             let mut p: Vec<bool> = (0..d).map(|_| rng.chance(2, 3)).collect();
